@@ -409,6 +409,32 @@ fn const_value_json<'tcx>(tcx: TyCtxt<'tcx>, ty: Ty<'tcx>, val: ConstValue) -> V
         }
         _ => {}
     }
+    // `[&str; N]` constants (by value, stored indirectly) and `&[&str; N]`: strings joined with U+001F
+    {
+        let mut target: Option<(rustc_middle::mir::interpret::AllocId, usize, Ty<'tcx>)> = None;
+        if let ConstValue::Indirect { alloc_id, offset } = val {
+            target = Some((alloc_id, offset.bytes_usize(), ty));
+        }
+        if let ConstValue::Scalar(rustc_middle::mir::interpret::Scalar::Ptr(ptr, _)) = val {
+            if let ty::Ref(_, inner, _) = ty.kind() {
+                let (prov, offset) = ptr.prov_and_relative_offset();
+                target = Some((prov.alloc_id(), offset.bytes_usize(), *inner));
+            }
+        }
+        if let Some((alloc_id, base, aty)) = target {
+            if let ty::Array(elem, len) = aty.kind() {
+                let is_str_ref = matches!(elem.kind(), ty::Ref(_, inner, _) if matches!(inner.kind(), ty::Str));
+                if is_str_ref {
+                    if let (Some(n), rustc_middle::mir::interpret::GlobalAlloc::Memory(a)) = (len.try_to_target_usize(tcx), tcx.global_alloc(alloc_id)) {
+                        if let Some(parts) = read_str_array(tcx, a.inner(), base, n as usize) {
+                            out.push(("str", J::s(parts.join("\u{1f}"))));
+                            out.push(("str_array", J::Bool(true)));
+                        }
+                    }
+                }
+            }
+        }
+    }
     // `&[u8; N]` constants (format_args! templates): raw bytes, one char per byte
     if let ConstValue::Scalar(rustc_middle::mir::interpret::Scalar::Ptr(ptr, _)) = val {
         if let ty::Ref(_, inner, _) = ty.kind() {
@@ -431,6 +457,35 @@ fn const_value_json<'tcx>(tcx: TyCtxt<'tcx>, ty: Ty<'tcx>, val: ConstValue) -> V
         }
     }
     out
+}
+
+fn read_str_array<'tcx>(tcx: TyCtxt<'tcx>, alloc: &rustc_middle::mir::interpret::Allocation, base: usize, n: usize) -> Option<Vec<String>> {
+    let mut parts: Vec<String> = Vec::new();
+    for i in 0..n {
+        let at = base + i * 16;
+        if at + 16 > alloc.len() {
+            return None;
+        }
+        let raw = alloc.inspect_with_uninit_and_ptr_outside_interpreter(at..at + 16);
+        let mut o8 = [0u8; 8];
+        o8.copy_from_slice(&raw[0..8]);
+        let mut l8 = [0u8; 8];
+        l8.copy_from_slice(&raw[8..16]);
+        let inner_off = u64::from_le_bytes(o8) as usize;
+        let slen = u64::from_le_bytes(l8) as usize;
+        let prov = alloc.provenance().ptrs().iter().find(|(sz, _)| sz.bytes_usize() == at).map(|(_, p)| *p)?;
+        if let rustc_middle::mir::interpret::GlobalAlloc::Memory(sa) = tcx.global_alloc(prov.alloc_id()) {
+            let sal = sa.inner();
+            if inner_off + slen > sal.len() {
+                return None;
+            }
+            let b = sal.inspect_with_uninit_and_ptr_outside_interpreter(inner_off..inner_off + slen);
+            parts.push(String::from_utf8_lossy(b).to_string());
+        } else {
+            return None;
+        }
+    }
+    Some(parts)
 }
 
 fn dump_const_item<'tcx>(tcx: TyCtxt<'tcx>, did: DefId) -> Option<J> {
@@ -657,8 +712,8 @@ impl<'a, 'tcx> Cx<'a, 'tcx> {
                         // try to read through the promoted body: `&"lit"` / `&[..]`
                         if let Some(s) = self.promoted_str(uv.def, p) {
                             f.push(("str", J::s(s)));
+                            done = true;
                         }
-                        done = true;
                     } else {
                         f.push(("item", J::s(def_path(self.tcx, uv.def))));
                     }
